@@ -1,0 +1,34 @@
+//go:build verif
+
+// Test equipment for the /verif harness (property C25): start a TLS 1.3 KeyUpdate from this side.
+// crypto/tls has no API for it; this is exactly the tail of handleKeyUpdate (conn.go:1356-1369) with
+// the update_requested flag chosen by the caller. Compiled only with -tags verif.
+
+package tls
+
+import "errors"
+
+// VerifSendKeyUpdate sends a KeyUpdate message and ratchets the write key, as handleKeyUpdate does
+// when it answers a peer's request.
+func (c *Conn) VerifSendKeyUpdate(requestUpdate bool) error {
+	if c.vers != VersionTLS13 {
+		return errors.New("verif: KeyUpdate needs TLS 1.3")
+	}
+	cipherSuite := cipherSuiteTLS13ByID(c.cipherSuite)
+	if cipherSuite == nil {
+		return errors.New("verif: no TLS 1.3 cipher suite")
+	}
+	c.out.Lock()
+	defer c.out.Unlock()
+	msg := &keyUpdateMsg{updateRequested: requestUpdate}
+	msgBytes, err := msg.marshal()
+	if err != nil {
+		return err
+	}
+	if _, err := c.writeRecordLocked(recordTypeHandshake, msgBytes); err != nil {
+		return err
+	}
+	newSecret := cipherSuite.nextTrafficSecret(c.out.trafficSecret)
+	c.out.setTrafficSecret(cipherSuite, QUICEncryptionLevelInitial, newSecret)
+	return nil
+}
